@@ -41,7 +41,7 @@ var NotApplicable = []NA{
 	
 	{"C14", "a grid of (server parameters x offers) through a pure negotiator; the only history in it (reset) is covered by C18 (DESIGN.md §5)."},
 	{"C15", "'for arbitrary bytes never panics/hangs' explored by coverage-guided mutation is fuzzing of pure decoders, not simulation; panics or frozen step counters met inside claimed properties' runs are still reported there (DESIGN.md §5)."},
-	{"C19", notYet}, {"C20", notYet},
+	{"C19", notYet},
 }
 
 var Real = []string{
@@ -129,6 +129,13 @@ var All = []*Spec{
 		LevelText: "seeded exploration with a differential oracle: the transcript of H2 (every return value, Size/Available/Buffered or Valid/Accepted getters, bytes sent) on the reused object equals the transcript of H2 on a freshly constructed object with the same buffer length, state and opcode, masks reseeded identically.",
 		LevelNote: "the buffer length of a wsutil.Writer is read by reflection (field raw) to build the fresh twin; ResetOp is compared with a fresh writer carrying the same extensions and flush mode, as documented.",
 		DesignRef: "§4 C18", Technique: "deterministic simulation: seeded two-life histories with injected I/O errors, differential against a fresh instance"},
+	{ID: "C20", Engine: "dial", Level: "fault_enumeration", Quick: 1600, Thorough: 160000, QuickCap: 150, ThorCap: 1700,
+		Rule: "scenarios are sampled from the seed: context kind (Background / cancel-only / with deadline at instants around every peer event), Dialer.Timeout (none / shorter / longer), connect delay, ws/wss (stub TLS), WrapConn, peer (valid 101 after a delay in 1-4 segments with gaps and optional trailing frame / rejecting / silent / write-blocking), read buffer and per-read segment size; for each scenario the cancellation instant is enumerated: no cancel, cancel after return (order B), cancel at 7 fake-time instants, and cancel at entry and at successful exit of EVERY Read/Write on the conn with the watcher goroutine run to quiescence before the call proceeds (order A, incl. inside the final Read); evaluations = scenarios, fault_points_enumerated = Dial executions, each in its own synctest bubble; distinct = trace digests (return instants, conn call ledgers, errors)",
+		Stub: []string{"clock, timers, context deadlines: testing/synctest fake clock (Go 1.26.8)", "net.Conn: dial.Conn (deadline-honouring, in-bubble sync.Cond + timers, full call ledger)", "NetDial / TLSClient / WrapConn: stubs returning the simulated conn, NetDial honours ctx during its connect delay", "peer: in-bubble timers delivering response segments; Sec-WebSocket-Accept computed independently (crypto/sha1)", "github.com/gobwas/pool -> /verif/simpool"},
+		Assume: append([]string{"the runtime's choice between simultaneously ready select cases cannot be seeded; enumerated orders (A) and (B) never make both ready at once"}, assumeCommon...),
+		LevelText: "fault enumeration on a fake clock: per sampled scenario every cancellation point is executed. Oracle from the conn ledger and the fake clock: success => conn not closed, deadlines cleared, no call on the conn during a following hour even after a late cancel; failure with a conn => Close before return; context ended during handshake I/O and nothing else failed => errors.Is(err, ctx.Err()); Dial returns no later than min(context end, start+Timeout); no goroutine started by Dial survives its return (goroutine count at quiescence, and bubble exit would deadlock).",
+		LevelNote: "the error value when Dialer.Timeout (not the caller's context) expires is not checked; scenarios in which nothing can ever end the wait are not generated; deadline instants avoid exact ties with peer events by 1 ms.",
+		DesignRef: "§4 C20", Technique: "deterministic simulation: synctest fake clock + exhaustive cancellation-point enumeration per seeded scenario"},
 }
 
 func Find(id string) *Spec {
